@@ -1,6 +1,6 @@
 (* The Q instance of the model, as the functions the runner calls. *)
 From Coq Require Import List ZArith QArith Bool.
-From SplipyModel Require Import Model.Num Model.BasisDef Model.BasisEval.
+From SplipyModel Require Import Model.Num Model.BasisDef Model.BasisEval Model.Knots Model.Tensor Model.Obj.
 Import ListNotations.
 
 Definition q_basis_evaluate := @basis_evaluate Q NumQ.
@@ -9,4 +9,9 @@ Definition q_snap1 := @snap1 Q NumQ.
 (* reference: naive Cox-de Boor / derivative recurrence on the list's knot function *)
 Definition q_dB (side : bool) (k : list Q) (r q i : nat) (t : Q) : Q := @dBq Q NumQ side (kn k) r q i t.
 Definition q_ref_row := @ref_row Q NumQ.
+Definition q_obj_eval := @obj_eval Q NumQ.
+Definition q_obj_deriv := @obj_deriv Q NumQ.
+Definition q_mkBasis := @mkBasis Q.
+Definition q_mkObj := @mkObj Q.
+Definition q_wf_basis := @wf_basis Q NumQ.
 Definition q_res_witness (e : err) : res unit := Err e.
